@@ -467,12 +467,14 @@ def _contour_group(case, ctx, n, rng, judge, control):
 
 
 def _fit_descs_model(spec):
-    from virocon import NumberOfIntervalsSlicer
+    from virocon import PointsPerIntervalSlicer
 
     out = []
     for d in spec["dims"]:
         cls = S.classes()[d["fam"]]
-        desc = {"distribution": cls(), "intervals": NumberOfIntervalsSlicer(n_intervals=3, min_n_points=5, min_n_intervals=1)}
+        # (a robust carrier: four equally filled intervals of the 600 carrier rows, whatever the tails of the data - an
+        #  equal-width split left a single populated interval for one heavy-tailed carrier and the CONTROL failed)
+        desc = {"distribution": cls(), "intervals": PointsPerIntervalSlicer(n_points=150, min_n_intervals=3)}
         if d.get("cond") is not None:
             from virocon import DependenceFunction
 
